@@ -706,7 +706,8 @@ def run(tier, chk):
         chk.cov['distinct_nontrivial'] += sum(1 for h in hs if _nontrivial(h))
         for r in recs[:1]:
             chk.sample({'history': show_hist(r['acts']), 'read_back': EJ.show(r['obs'][-1]) if r['st'] == 'ok' else r['st'], 'valuations': NENV})
-    chk.cov['exhaustive'] = 'histories of <= 2 stores + 1 load, widths 8/16/32, offsets %s, constant and symbolic base, constant and symbolic values' % offs
+    chk.cov['exhaustive'] = False      # the history space below is enumerated completely; the program space is sampled
+    chk.cov['exhaustively_enumerated_part'] = 'histories of <= 2 stores + 1 load, widths 8/16/32, offsets %s, constant and symbolic base, constant and symbolic values' % offs
     t0 = _tick(chk, 'histories (exhaustive + simulated)', t0)
     # (b) programs
     st = collections.Counter()
